@@ -13,6 +13,12 @@ pub fn framing_oracle(msg: &[u8], case: &mut Case) -> Result<bool, Fail> {
     let verdict = decode_message(msg);
     let got = parse(msg)?;
     match verdict {
+        // a name that breaks a name rule (reserved label type, label / name length, pointer cycle or range) without
+        // running past the end of the message is C06's subject, not framing
+        Err(MsgErr::Walk(WalkErr::Name(ne))) if !matches!(ne, NameErr::Truncated) => {
+            case.class("name-breaks-a-name-rule:no-claim");
+            Ok(false)
+        }
         Err(MsgErr::Walk(e)) => {
             case.class(format!("walker:{:?}", e).split('(').next().unwrap().to_string());
             if let Ok(p) = &got {
@@ -49,12 +55,27 @@ pub fn framing_oracle(msg: &[u8], case: &mut Case) -> Result<bool, Fail> {
                 }
                 Ok(p) => {
                     let o = lib("observe", || observe(&p))?;
-                    let want = as_library_shows(want);
+                    let mut want = as_library_shows(want);
+                    // (which octet of the OPT entry's TTL is shown as the EDNS version is C09's statement)
+                    if let (Some(we), Some(oe)) = (want.edns.as_mut(), o.edns.as_ref()) {
+                        we.version = oe.version;
+                    }
                     // with several OPT-typed entries the statement does not say which one is shown as the EDNS
                     // data: any choice is accepted as long as every other entry stays where it is
                     let twin_ok = o != want && {
                         let n = opt_entries(msg);
-                        n >= 2 && (1..n).any(|k| decode_message_lifting(msg, k).map(|(w, _)| as_library_shows(w) == o).unwrap_or(false))
+                        n >= 2
+                            && (1..n).any(|k| {
+                                decode_message_lifting(msg, k)
+                                    .map(|(w, _)| {
+                                        let mut w = as_library_shows(w);
+                                        if let (Some(we), Some(oe)) = (w.edns.as_mut(), o.edns.as_ref()) {
+                                            we.version = oe.version;
+                                        }
+                                        w == o
+                                    })
+                                    .unwrap_or(false)
+                            })
                     };
                     if twin_ok {
                         case.class("several-opt-entries:another-one-shown-as-edns");
